@@ -83,6 +83,11 @@ SCRIPTS = [
     # rotation, a failed status in between, disable, enable again
     [(_doc("Wireserver", None), "key", True), (None, "none", True), (_doc("Wireserver", None), "key", True), (_doc("Disabled", "@latched"), "none", True),
      (_doc("WireserverAndImds", None), "key", True)],
+    # the host hands out the same guid again with another value after an attestation that failed: the new value is stored and used
+    [(_doc("Wireserver", None), "key:g-same", False), (_doc("Wireserver", None), "key:g-same", True), (_doc("Wireserver", "@latched"), "none", True)],
+    # a damaged key file of an earlier run lies under the guid the host hands out: it is replaced, not kept
+    [(_doc("Wireserver", None), "key:g-old+garbage", True), (_doc("Wireserver", "@latched"), "none", True)],
+    [(_doc("Disabled", None), "none", True), (_doc("WireserverAndImds", None), "key:g-old2+garbage", True), (_doc("WireserverAndImds", None), "key:g-old2", True)],
 ]
 
 
@@ -130,6 +135,25 @@ def keepalive_signing(chk, binp):
             elif expect is not None and (g != expect or not okmac):
                 chk.violation("a request on an open connection is not signed with the key the host names as latched", d, expected=expect,
                               observed={"announced": g, "mac_ok": okmac, "mac_made_with": prod})
+        # shutdown is signalled while the connection is still open: whatever is still relayed on it is signed as before (the host
+        # goes on regarding its key as latched), or nothing is relayed at all
+        if conn is not None and stack.ctl("cancel") == "ok":
+            time.sleep(0.3)
+            stack.hosts.take()
+            try:
+                r = conn.request(e2e.build_request("GET", "/metadata/instance?step=shutdown", [(b"Host", b"h")]), b"GET", 3.0)
+            except OSError:
+                r = None
+            time.sleep(0.03)
+            recs = [x for x in stack.hosts.take() if not x.get("partial")]
+            chk.case(nontrivial_key=("keepalive-signing", "after shutdown signal", bool(recs)))
+            chk.count("keepalive_signing_after_shutdown_signal")
+            for rec in recs:
+                g, okmac, prod = c10.verify(rec)
+                if g != K3 or not okmac:
+                    chk.violation("a request on an open connection is not signed with the key the host names as latched",
+                                  {"step": "after the shutdown signal", "connection": "opened after the first latch and kept open", "status": r and r["status"]},
+                                  expected=K3, observed={"announced": g, "mac_ok": okmac, "mac_made_with": prod})
         if conn is not None:
             conn.close()
         kp.close()
@@ -195,11 +219,20 @@ def run(chk):
                 acq_tok = ["N"]
                 store_ok = True
                 ra = rng.below(10)
+                fixed_guid, plant_garbage = None, False
                 if script:
+                    if ":" in sacq:
+                        fixed_guid = sacq.split(":")[1]
+                        if fixed_guid.endswith("+garbage"):
+                            fixed_guid, plant_garbage = fixed_guid[:-8], True
+                        sacq = "key"
                     ra = {"key": 0, "none": 9, "http": 9}[sacq]
                 if ra < 7:
                     keyno[0] += 1
-                    g = "g-%d" % keyno[0] if (script or rng.chance(3, 4)) else rng.pick(["g-a", "g-b"])
+                    g = fixed_guid or ("g-%d" % keyno[0] if (script or rng.chance(3, 4)) else rng.pick(["g-a", "g-b"]))
+                    if plant_garbage:
+                        open(os.path.join(kp.key_dir, g + ".key"), "w").write('{"trunc')
+                        m.append(f"kk file {hx(g)} garbage")
                     kv = "%064x" % (keyno[0] * 7919)
                     plan["acquire"] = {"kind": "key", "guid": g, "key": kv}
                     acq_tok = ["V", hx(g), hx(kv)]
